@@ -75,6 +75,15 @@ func main() {
 	c := core.NewCtx(*prop, *tier, *job, *shard, *nshards, *out)
 	c.Seed = *seed
 	c.Deadline = *deadline
+	for _, a := range flag.Args() {
+		for i := 0; i < len(a); i++ {
+			if a[i] == '=' {
+				if v, err := strconv.Atoi(a[i+1:]); err == nil {
+					c.Args[a[:i]] = v
+				}
+			}
+		}
+	}
 	d.Run(c, flag.Args())
 	res := c.Finish()
 	name := *out + "/result-" + *prop + "-" + *job + "-" + strconv.Itoa(*shard) + ".json"
